@@ -885,7 +885,28 @@ def sc_cg(V, P, cfg):
             _fallback_probe(V.c, obl, np.asarray(r_).reshape(n, ncol), bm - _op(A, t) @ np.asarray(x_).reshape(n, ncol))
     broke = False
     try:
-        s = CG(Ain, preconditioner=prec, tol=tol, maxit=maxit, restart=restart)
+        if cfg.get("prior_matrix"):
+            # history on one solver object: set up for another matrix and used in the same mode, then update(A)
+            import scipy.sparse as _sps
+            A0 = np.array([[2.0, 0.5 - 0.25j], [0.5 + 0.25j, 3.0]]) if ac else np.array([[2.0, 0.5], [0.5, 3.0]])
+            b0 = np.array([1.0, -2.0]).reshape((n,) if sk == "v" else (n, 1))
+            if V.symbolic:
+                from symx.array import wrap as _wrap
+                cst = (lambda z: C(R.of(float(np.real(z))), R.of(float(np.imag(z))))) if ac else (lambda z: R.of(float(z)))
+                A0 = _wrap(np.array([[cst(e) for e in row] for row in A0], dtype=object))
+                b0 = _wrap(np.array([R.of(float(e)) for e in b0.reshape(-1)], dtype=object).reshape(b0.shape))
+                A0in = _mk_sparse(V, A0) if cfg.get("sparse", True) else A0
+            else:
+                A0in = _sps.csc_matrix(A0) if cfg.get("sparse", True) else A0
+            s = CG(A0in, preconditioner=Preconditioner(), tol=(R.of("1/1000") if V.symbolic else 1e-3), maxit=1, restart=restart)
+            with warnings.catch_warnings():
+                warnings.simplefilter("ignore")
+                s.solve(b0, trans=t)
+            del snaps[:]
+            s.preconditioner, s.tol, s.maxit = prec, tol, maxit
+            s.update(Ain)
+        else:
+            s = CG(Ain, preconditioner=prec, tol=tol, maxit=maxit, restart=restart)
         with warnings.catch_warnings(record=True) as wl:
             warnings.simplefilter("always")
             try:
@@ -1393,6 +1414,9 @@ def items(tier):
                     cg(t, prec, x0, 1, 1, tag, ac, xc)
         for prec in ("identity", "jacobi"):
             cg(t, prec, True, 1, 2, "r", False, False)
+        # a solver object that was set up for another matrix and used in the same mode before update(A)
+        cg(t, "identity", False, 1, 1, "r-reupdate", False, False, prior_matrix=True)
+        cg(t, "identity", True, 1, 1, "c-reupdate", True, True, prior_matrix=True)
         cg(t, "free", True, 50, 2, "r", False, False)
         if not q:
             cg(t, "identity", False, 50, 2, "r", False, False)
